@@ -1,3 +1,4 @@
+mod allocseam;
 mod c09;
 mod c12;
 mod c15;
@@ -10,6 +11,9 @@ mod sched;
 mod simdoc;
 
 use serde_json::Value;
+
+#[global_allocator]
+static GLOBAL: allocseam::SimAlloc = allocseam::SimAlloc;
 
 fn arg_val(args: &[String], name: &str) -> Option<String> {
     args.iter().position(|a| a == name).and_then(|i| args.get(i + 1).cloned())
